@@ -32,9 +32,24 @@ VALID_FAMILIES = ("T", "W", "TC", "RC", "OPT", "BUF", "FOL")
 OPS = ["solve", "solve", "another", "another", "var", "export", "params", "initialize"]
 
 
+# an objective over an indicator that declares bounds (user indicator, resource utilisation): the incremental optimiser
+# leaves its loop early when the bound is reached; the history goes on with requests for other solutions
+PROFILE_BOUND = S.profile(min_tasks=1, max_tasks=3, horizon=(2, 4), p_no_horizon=0, p_resources=60, task_constraints=(0, 1), optional_rules=(0, 0), resource_constraints=(0, 0),
+                          indicators=(1, 2), indicator_types=["FromMathExpression", "FromMathExpression", "ResourceUtilization"], p_indicator_bounds=90, objectives=(1, 1),
+                          only_objectives=["MaximizeIndicator", "MinimizeIndicator", "MaximizeResourceUtilization"], p_weight_zero=0, p_optional=25, p_release=10, p_due=10,
+                          p_work_amount=5, p_cumulative=0, p_select=20)
+
+
 @st.composite
-def cases(draw):
-    spec = draw(S.specs(PROFILE))
+def cases(draw, bound_stratum=False):
+    spec = draw(S.specs(PROFILE_BOUND if bound_stratum else PROFILE))
+    if bound_stratum:
+        keys = [["task", t["name"], a] for t in spec["tasks"] for a in ("start", "end")]
+        ops = [["solve"]]
+        for _ in range(draw(st.integers(2, 10))):
+            o = draw(st.sampled_from(["another", "another", "another", "var", "solve"]))
+            ops.append([o, draw(st.sampled_from(keys))] if o == "var" else [o])
+        return {"spec": spec, "ops": ops, "kw": {"optimizer": "incremental"} if spec["objectives"] else {}, "seed": draw(st.integers(0, 2**30))}
     keys = []
     for t in spec["tasks"]:
         keys += [["task", t["name"], "start"], ["task", t["name"], "end"]]
@@ -204,6 +219,7 @@ def run_history(ctx, case):
 def run_shard(ctx):
     n = {"quick": 90, "thorough": 900}[ctx.tier]
     run_hypothesis(ctx, cases(), run_history, max_examples=n)
+    run_hypothesis(ctx, cases(bound_stratum=True), run_history, max_examples=max(30, n // 2))
 
 
 def replay(record):
